@@ -5,6 +5,7 @@ import CoercionModel.Model.Skeletons
 import CoercionModel.Generated.F10
 import CoercionModel.Model.SkeletonsRest
 import CoercionModel.Generated.F14
+import CoercionModel.Generated.T10
 set_option linter.unusedSimpArgs false
 /-
   C12 — A plan executes at most once; repeated or racing Start is rejected safely.
@@ -158,5 +159,46 @@ theorem facts_skeleton :
 /-- the engine functions this property's model depends on only through their effects (group `apiRest` of
     Model/SkeletonsRest) still have the shape they were read with (regenerated from /repo on every run) -/
 theorem facts_skeleton_rest : Generated.F14.apiRest = SkeletonsRest.apiRest := by rfl
+
+/-! ### the guard of `Start`'s decision, translated from execute.go on every run (translator T10)
+
+The models (`Api.startable`, the `.decide` step of `ApiFine`) accept a plan iff what was read from storage is NotStarted
+and the submission is not stale. In the code that guard is `validateStartState`: a staleness test on the plan and
+`validateState` applied to every object of the walk. -/
+
+/-- the translated `validateState` accepts an object iff it is NotStarted with zero Start and End times -/
+theorem translated_validateState (st : Status) (tStart tEnd : Nat) :
+    Generated.T10.validateStateOk st tStart tEnd = true ↔ (st = .notStarted ∧ tStart = 0 ∧ tEnd = 0) := by
+  unfold Generated.T10.validateStateOk
+  cases st <;> by_cases h1 : tStart = 0 <;> by_cases h2 : tEnd = 0 <;> simp [h1, h2]
+
+/-- so a plan whose stored status is anything but NotStarted — Running (being executed or crashed), Completed, Failed,
+    Stopped — is refused by the guard, whatever else it holds: the `st = .notStarted` conjunct of the models' guard -/
+theorem translated_started_plan_refused (st : Status) (tStart tEnd : Nat) (h : st ≠ .notStarted) :
+    Generated.T10.validateStateOk st tStart tEnd = false := by
+  cases h' : Generated.T10.validateStateOk st tStart tEnd
+  · rfl
+  · exact absurd ((translated_validateState st tStart tEnd).mp h').1 h
+
+/-- the translated staleness test is the models' `stale` flag: submitted longer than maxSubmit ago (the boundary itself
+    is still fresh), and it can only become true as time passes (`stale_stable`) -/
+theorem translated_stale (maxSubmit now submit : Nat) :
+    Generated.T10.staleSubmission maxSubmit now submit = true ↔ submit + maxSubmit < now := by
+  simp [Generated.T10.staleSubmission]
+
+theorem translated_stale_monotone (maxSubmit now now' submit : Nat) (h : now ≤ now')
+    (hs : Generated.T10.staleSubmission maxSubmit now submit = true) : Generated.T10.staleSubmission maxSubmit now' submit = true := by
+  rw [translated_stale] at hs ⊢; omega
+
+/-- the models' guard, assembled from the translated tests, is `Api.startable` without the waiter conjunct -/
+theorem translated_guard_is_startable (s : S) (maxSubmit now submit : Nat)
+    (hstale : s.stale = Generated.T10.staleSubmission maxSubmit now submit) (hw : s.waiter = false) :
+    startable s = (Generated.T10.validateStateOk s.stored 0 0 && !Generated.T10.staleSubmission maxSubmit now submit) := by
+  unfold startable
+  rw [← hstale, hw]
+  cases hst : s.stored <;> cases s.stale <;> simp [Generated.T10.validateStateOk]
+
+example : Generated.T10.validateStateOk .running 5 0 = false ∧ Generated.T10.staleSubmission 100 1000 900 = false ∧
+    Generated.T10.staleSubmission 100 1001 900 = true := by decide
 
 end Coercion.C12
